@@ -392,6 +392,33 @@ def main():
         if k['key'] not in kf_hit and not a.replay:
             notes.append(f"open finding {k['key']} did not reproduce in this run")
 
+    # hunt mode (DESIGN §4.3): the tie or a proof broke but no monitor fired — widen the search for a
+    # concrete failing input (other seeds, 4x the cases, the differing families first) before giving up
+    if not fails and (diffs or bads or not proof_ok) and not a.replay and os.path.exists(MODEL):
+        hunt_fams = [f for f in cfg['families'] if any(d[0] == f for d in diffs + bads)] or list(cfg['families'])
+        budget_t = time.monotonic() + (120 if tier == 'quick' else 900)
+        for hs in range(1, 4):
+            if fails or time.monotonic() > budget_t:
+                break
+            for fam in hunt_fams:
+                nq, nt = cfg['families'][fam]
+                n = min(4 * nq, nt) if tier == 'quick' else nt
+                cmd = [os.path.join(BIN, 'corr'), 'run', fam, '--seed', str(seed * 1000003 + hs), '--n', str(n), '--tier', tier]
+                try:
+                    p1 = subprocess.run(cmd, stdout=subprocess.PIPE, env=GOENV, text=True, timeout=max(30, budget_t - time.monotonic()))
+                except subprocess.TimeoutExpired:
+                    continue
+                hl = [l for l in p1.stdout.split('\n') if l.strip()]
+                for l, v in zip(hl, run_model(hl)):
+                    if v.startswith('PROPFAIL') and not any(matches_finding(k, fam, l, v) for k in kfs):
+                        fails.append((fam, l, v))
+                        all_cases.append((fam, l, v))
+                if fails:
+                    notes.append(f'hunt mode found a failing input in family {fam} (derived seed {hs})')
+                    break
+        if not fails:
+            notes.append('hunt mode: no failing input found in the widened search')
+
     nviol = 0
     if fails:
         fam, line, v = fails[0]
